@@ -232,6 +232,11 @@ def check_case(case, res: Result):
                     forms = [sp, os.path.join(os.path.dirname(sp), ".", os.path.basename(sp)), os.path.join(os.path.dirname(sp), "..", os.path.basename(os.path.dirname(sp)), os.path.basename(sp)),
                              # spellings the operating system rejects unless sp is a directory / the segment exists
                              sp + "/", sp + "/.", os.path.join(os.path.dirname(sp), "no_such_dir", "..", os.path.basename(sp))]
+                    rd = os.path.realpath(os.path.dirname(sp))
+                    if rd != os.path.abspath(os.path.dirname(sp)):
+                        # reached through a link to a directory: `..` leads to the parent of the link's target, so the way
+                        # back goes through the target's own name (a textual normaliser reads this spelling differently)
+                        forms.append(os.path.join(os.path.dirname(sp), "..", os.path.basename(rd), os.path.basename(sp)))
                     for wd in (root, top):
                         os.chdir(wd)
                         forms.append(os.path.relpath(sp, wd))
